@@ -9,3 +9,7 @@ package operations
 //@   assumed
 //@   modifies nothing
 //@   ensures result != nil
+
+//@ func OpRefsByRef(oprefs)
+//@   aspect safe
+//@   modifies nothing
